@@ -68,6 +68,21 @@ def pre_neg(T, n, q, sig, dor):
     return ev(T, n, q, sig, dor)
 
 
+def attr_names(tree):
+    """the attribute names of every node, in pre-order (iterative)"""
+    out, stack = [], [tree]
+    while stack:
+        n = stack.pop()
+        out.append(tuple(sorted(vars(n))))
+        stack.extend(reversed(n.children))
+    return out
+
+
+def payload_base(desc, dflt, sig, names, M, O):
+    return {"tree": desc[:1500], "default": dflt.__name__, "sigma_true": sorted(list(p) for p, v in sig.items() if v),
+            "names": sorted(names), "matching": sorted(map(list, M)), "other": sorted(map(list, O))}
+
+
 def reported(T, tree, sig, M, O, dor=True):
     """the premise of the property: PropagateSpec.reported (an element covering several terms is never reported),
     widened: such an element may also be reported as matching, but only if its value before its own negation
@@ -217,6 +232,7 @@ def correspond(model_ok, res):
     # history (a result that changes when the instance is used again is an identity fact the value
     # model of Coq cannot see)
     HIST_LEN = 5
+    shared_objs, shared_attrs, shared_calls = {}, {}, {}
     hist = {}          # default class -> {"inst": propagator, "calls": [entry]}
     dist["histories"] = 0
     dist["history_calls"] = 0
@@ -306,6 +322,34 @@ def correspond(model_ok, res):
                            "sigma_true": sorted(list(p) for p, v in sig.items() if v),
                            "names": sorted(names), "matching": sorted(map(list, M)),
                            "other": sorted(map(list, O))}
+                # ONE tree object per source tree, propagated again and again with changing sets of named paths
+                # (some names dropped altogether): the result is a function of (tree, matching, other) only, and
+                # propagation leaves nothing behind on the tree
+                if ti not in shared_objs:
+                    shared_objs[ti] = copy.deepcopy(tree)
+                    shared_attrs[ti] = attr_names(shared_objs[ti])
+                M2 = {q for q in M if r.random() < 0.7}
+                O2 = {q for q in O if r.random() < 0.7}
+                try:
+                    got_shared = naming.MatchingPropagator(dflt)(shared_objs[ti], set(M2), set(O2))
+                    got_fresh = naming.MatchingPropagator(dflt)(copy.deepcopy(tree), set(M2), set(O2))
+                    if (set(got_shared[0]), set(got_shared[1])) != (set(got_fresh[0]), set(got_fresh[1])):
+                        res.failures.append((dict(payload_base(desc, dflt, sig, names, M2, O2),
+                                                  why="propagation on a tree object that was propagated before (with "
+                                                      "other named paths) differs from propagation on a fresh copy",
+                                                  calls_before_on_this_object=shared_calls.get(ti, 0),
+                                                  reused_object=[sorted(map(list, x)) for x in got_shared],
+                                                  fresh_copy=[sorted(map(list, x)) for x in got_fresh]), None))
+                    if attr_names(shared_objs[ti]) != shared_attrs[ti]:
+                        res.failures.append((dict(payload_base(desc, dflt, sig, names, M2, O2),
+                                                  why="propagation left new attributes on the nodes of its input",
+                                                  attributes=sorted(set(sum(attr_names(shared_objs[ti]), ()))
+                                                                    - set(sum(shared_attrs[ti], ())))), None))
+                        shared_attrs[ti] = attr_names(shared_objs[ti])
+                except Exception as e:
+                    res.failures.append((dict(payload_base(desc, dflt, sig, names, M2, O2),
+                                              why="exception %r on a re-used tree object" % (e,)), None))
+                shared_calls[ti] = shared_calls.get(ti, 0) + 1
                 # inputs are not modified
                 if lib.g_item(t_run) != g_tree or M_in != M or O_in != O:
                     res.failures.append((dict(payload, why="propagation modified its inputs"), None))
